@@ -485,6 +485,48 @@ def zero_is_identity(ctx, rule="C02.first-param"):
     return n
 
 
+def prep_every_mode(ctx, rule="C02.elision"):
+    ctx.explain(f"{rule}: (preparations) a state preparation that decomposes into per-mode preparations resets EVERY mode: in "
+                "Gaussian._decompose each loop over the modes that emits Command(<preparation>, reg[n]) emits one on every path "
+                "through its body, and no comprehension that emits preparations has a filter (a skipped 'vacuum' mode keeps whatever "
+                "state it had).")
+    ops = op_classes(ctx.tree)
+    prep = ops.get("Preparation")
+    f = ctx.tree.func("ops.py", "Gaussian._decompose")
+    cfg = cfg_of(f.node)
+
+    def is_prep_cmd(c):
+        if not (isinstance(c, ast.Call) and dotted(c.func) == "Command" and c.args):
+            return False
+        g = c.args[0]
+        nm = (dotted(g.func) if isinstance(g, ast.Call) else dotted(g)) or ""
+        nm = {"Vac": "Vacuum"}.get(nm, nm)
+        return nm in ops and prep is not None and prep in ops[nm].mro()
+
+    n = 0
+    for lp in [x for x in walk_no_nested(f.node) if isinstance(x, ast.For)]:
+        emits = [c for c in ast.walk(lp) if is_prep_cmd(c)]
+        if not emits:
+            continue
+        n += 1
+        hid = cfg.find(lp)
+        eids = {cfg.node_of_expr(c)[0] for c in emits if cfg.node_of_expr(c)}
+        ok = bool(hid) and bool(eids)
+        if ok:
+            starts = [b for b, lab in cfg.succ[hid[0]] if lab == TRUE]
+            r = cfg.reachable(starts, avoid=eids, exc=False)
+            ok = hid[0] not in r and not (set(starts) & {hid[0]})
+        ctx.ob(rule, f.site, ok, "" if ok else "a path through the per-mode loop emits no preparation for the mode: the mode is not "
+               "reset (the decomposed preparation acts on top of the previous state)", role=f"prep-every-mode:loop{n}", line=lp.lineno)
+    for comp in [x for x in walk_no_nested(f.node) if isinstance(x, (ast.ListComp, ast.GeneratorExp))]:
+        if is_prep_cmd(comp.elt):
+            n += 1
+            ok = not any(g.ifs for g in comp.generators)
+            ctx.ob(rule, f.site, ok, "" if ok else f"`{ast.unparse(comp)[:60]}` emits preparations for some of the modes only",
+                   role="prep-every-mode:comprehension", line=comp.lineno)
+    ctx.require(n >= 4, f"only {n} per-mode preparation loops found in Gaussian._decompose")
+
+
 def product_units(ctx, rule="C02.product-units"):
     Hb.ops_frontend(ctx, rule, only_classes=("Xgate", "Zgate", "Gaussian", "Vgate"))
     ctx.floor(rule, 4)
@@ -497,6 +539,7 @@ def rules(ctx):
     mesh_table(ctx)
     driver(ctx)
     elision(ctx)
+    prep_every_mode(ctx)
     zero_is_identity(ctx)
     pure_decompose(ctx)
     product_units(ctx)
